@@ -22,8 +22,20 @@ def tasks(tier, seed):
         func("bt.core.SecurityBase.outlay"),
         func("bt.core.StrategyBase.adjust"),
         func("bt.core.CouponPayingSecurity.update"),
+        # mark-to-market: every security class is marked to position x price x multiplier and stays in its parent's update loop while a position is open
+        func("bt.core.SecurityBase.update"),
+        func("bt.core.FixedIncomeSecurity.update"),
+        func("bt.core.HedgeSecurity.update"),
+        func("bt.core.CouponPayingHedgeSecurity.update"),
+        func("bt.backtest.Backtest.run"),       # every date ends with an update after the algos ran: costs are recorded on the date they are paid
         dict(kind="custom", module="props.lemmas", fn="c07_trade_lemmas"),
+        dict(kind="custom", module="props.bounded", fn="run_script", script="c02_conservation", seed=seed, n=10 if tier == "quick" else 300, props=["C02"]),
     ]
+
+
+def post(results, tier, seed):
+    b = [r["bounded"] for r in results if r.get("bounded")]
+    return None, dict(bounded_stand_ins=b, bounded_note="real backtests audited date by date from their recorded series; never counted in obligations/discharged")
 
 
 def replay(o):
